@@ -110,7 +110,7 @@ def _inf_sign(v):
         if math.isinf(f):
             return 1 if f > 0 else -1
         if math.isnan(f):
-            raise Inconclusive("NaN operand")
+            return 2
     return 0
 
 
@@ -120,7 +120,6 @@ def _inf_sign(v):
 
 class SymBool:
     __slots__ = ("z",)
-    __array_priority__ = 1000
 
     def __init__(self, z):
         self.z = z
@@ -134,16 +133,22 @@ class SymBool:
     __index__ = __int__
 
     def __and__(self, o):
+        if isinstance(o, _np().ndarray):
+            return NotImplemented
         return SymBool(z3.And(self.z, _zbool(o)))
 
     __rand__ = __and__
 
     def __or__(self, o):
+        if isinstance(o, _np().ndarray):
+            return NotImplemented
         return SymBool(z3.Or(self.z, _zbool(o)))
 
     __ror__ = __or__
 
     def __xor__(self, o):
+        if isinstance(o, _np().ndarray):
+            return NotImplemented
         return SymBool(z3.Xor(self.z, _zbool(o)))
 
     __rxor__ = __xor__
@@ -209,7 +214,6 @@ class Sym:
     """Numeric proxy over a z3 Int or Real term."""
 
     __slots__ = ("z",)
-    __array_priority__ = 1000
 
     def __init__(self, z):
         self.z = z
@@ -232,6 +236,8 @@ class Sym:
 
     def _bin(self, o, f, swap=False):
         s = _inf_sign(o)
+        if s == 2:
+            return ("nan", 0)
         if s:
             return ("inf", s)
         oz = self._co(o)
@@ -248,7 +254,7 @@ class Sym:
         if r is None:
             return NotImplemented
         if isinstance(r, tuple):
-            return float("inf") * r[1]
+            return float("nan") if r[0] == "nan" else float("inf") * r[1]
         return Sym(r)
 
     __radd__ = __add__
@@ -258,7 +264,7 @@ class Sym:
         if r is None:
             return NotImplemented
         if isinstance(r, tuple):
-            return float("-inf") * r[1]
+            return float("nan") if r[0] == "nan" else float("-inf") * r[1]
         return Sym(r)
 
     def __rsub__(self, o):
@@ -266,10 +272,12 @@ class Sym:
         if r is None:
             return NotImplemented
         if isinstance(r, tuple):
-            return float("inf") * r[1]
+            return float("nan") if r[0] == "nan" else float("inf") * r[1]
         return Sym(r)
 
     def __mul__(self, o):
+        if _inf_sign(o) == 2:
+            return float("nan")
         if _inf_sign(o):
             raise Inconclusive("inf * symbolic")
         r = self._bin(o, lambda a, b: a * b)
@@ -291,9 +299,11 @@ class Sym:
     def _div(self, num, den):
         c = cur()
         c.check_nonzero(den)
-        return Sym(_real(num) / _real(den))
+        return c.quotient(_real(num), _real(den))
 
     def __truediv__(self, o):
+        if _inf_sign(o) == 2:
+            return float("nan")
         if _inf_sign(o):
             return 0.0
         oz = self._co(o)
@@ -302,6 +312,8 @@ class Sym:
         return self._div(self.z, oz)
 
     def __rtruediv__(self, o):
+        if _inf_sign(o) == 2:
+            return float("nan")
         if _inf_sign(o):
             raise Inconclusive("inf / symbolic")
         oz = self._co(o)
@@ -353,8 +365,10 @@ class Sym:
         raise Inconclusive("symbolic exponent")
 
     # ---- comparisons
-    def _cmp(self, o, f, inf_pos, inf_neg):
+    def _cmp(self, o, f, inf_pos, inf_neg, nan=False):
         s = _inf_sign(o)
+        if s == 2:
+            return nan
         if s:
             return inf_pos if s > 0 else inf_neg
         oz = self._co(o)
@@ -383,7 +397,7 @@ class Sym:
     def __ne__(self, o):
         if o is None or isinstance(o, str):
             return True
-        return self._cmp(o, lambda a, b: a != b, True, True)
+        return self._cmp(o, lambda a, b: a != b, True, True, nan=True)
 
     __hash__ = None
 
@@ -445,13 +459,35 @@ def sym_ite(c, a, b):
     return Sym(z3.If(cz, az, bz))
 
 
+def _elementwise(f, args):
+    """Apply f over broadcast object arrays when any argument is an ndarray."""
+    np = _np()
+    if any(isinstance(a, np.ndarray) for a in args):
+        bs = np.broadcast_arrays(*[np.asarray(a, dtype=object) for a in args])
+        out = np.empty(bs[0].shape, dtype=object)
+        for idx in np.ndindex(out.shape):
+            out[idx] = f(*[b[idx] for b in bs])
+        return out
+    return f(*args)
+
+
+def _max2(a, r):
+    c = a > r
+    return sym_ite(c, a, r) if isinstance(c, SymBool) else (a if c else r)
+
+
+def _min2(a, r):
+    c = a < r
+    return sym_ite(c, a, r) if isinstance(c, SymBool) else (a if c else r)
+
+
 def sym_max(*args):
+    """Non-forking max (ite chain); element-wise on arrays."""
     if len(args) == 1:
         args = list(args[0])
     r = args[0]
     for a in args[1:]:
-        c = a > r
-        r = sym_ite(c, a, r) if isinstance(c, SymBool) else (a if c else r)
+        r = _elementwise(_max2, (a, r))
     return r
 
 
@@ -460,8 +496,7 @@ def sym_min(*args):
         args = list(args[0])
     r = args[0]
     for a in args[1:]:
-        c = a < r
-        r = sym_ite(c, a, r) if isinstance(c, SymBool) else (a if c else r)
+        r = _elementwise(_min2, (a, r))
     return r
 
 
@@ -561,13 +596,14 @@ class Stats:
         self.forks = 0
         self.div_assumptions = 0
         self.sqrt_assumptions = 0
+        self.side_unknown = 0
         self.witnesses = {}
         self.samples = []
         self.exceptions = {}
 
     def merge(self, o):
         for k in ("paths", "aborted_paths", "queries", "unknown", "proved", "forks",
-                  "div_assumptions", "sqrt_assumptions"):
+                  "div_assumptions", "sqrt_assumptions", "side_unknown"):
             setattr(self, k, getattr(self, k) + getattr(o, k))
         self.solver_s += o.solver_s
         for k, v in o.witnesses.items():
@@ -606,6 +642,47 @@ def model_float(x):
     return x
 
 
+_VARS_CACHE = {}
+
+
+def _term_vars(t):
+    """Names of the uninterpreted constants / functions occurring in a term."""
+    key = t.get_id()
+    hit = _VARS_CACHE.get(key)
+    if hit is not None and hit[0].eq(t):
+        return hit[1]
+    out = set()
+    seen = set()
+    stack = [t]
+    while stack:
+        x = stack.pop()
+        i = x.get_id()
+        if i in seen:
+            continue
+        seen.add(i)
+        if z3.is_app(x):
+            d = x.decl()
+            if d.kind() == z3.Z3_OP_UNINTERPRETED:
+                out.add(d.name())
+            stack.extend(x.children())
+        elif z3.is_quantifier(x):
+            stack.append(x.body())
+    fs = frozenset(out)
+    if len(_VARS_CACHE) > 200000:
+        _VARS_CACHE.clear()
+    _VARS_CACHE[key] = (t, fs)
+    return fs
+
+
+def _default_value(z):
+    s = z.sort()
+    if s == z3.IntSort() or s == z3.RealSort():
+        return 0
+    if s == z3.BoolSort():
+        return False
+    return str(z) + "!default"
+
+
 class Ctx:
     """Context handed to harness bodies while exploring symbolically."""
 
@@ -623,6 +700,10 @@ class Ctx:
         self.notes = []
         self.ufs = {}
         self.uf_apps = {}
+        self.pc = []
+        self.pc_vars = []
+        self.pc_def = []
+        self._last_model = None
 
     # ---- symbol creation
     def _name(self, base):
@@ -638,7 +719,9 @@ class Ctx:
 
     def int(self, name):
         n = self._name(name)
-        z = z3.Int(n)
+        # relax_ints: integrality dropped (sound over-approximation for proofs;
+        # keeps the queries in nonlinear *real* arithmetic, which z3 decides)
+        z = z3.Real(n) if self.ex.relax_ints else z3.Int(n)
         self.symbols[n] = z
         return Sym(z)
 
@@ -652,7 +735,7 @@ class Ctx:
         n = self._name(name)
         z = z3.Int(n)
         self.symbols[n] = z
-        self.solver.add(z >= 0, z <= 2)
+        self._add(z >= 0, z <= 2)
         return SymState(z)
 
     def label(self, name):
@@ -662,14 +745,128 @@ class Ctx:
         return SymLabel(z)
 
     # ---- solver interaction
-    def _check(self, *assumptions):
-        t = time.perf_counter()
-        r = self.solver.check(*assumptions)
-        self.stats.solver_s += time.perf_counter() - t
-        self.stats.queries += 1
-        if r == z3.unknown:
-            self.stats.unknown += 1
+    # ---- path condition with independence slicing
+    def _add(self, *cs, defines=None):
+        """Add constraints to the path condition.  ``defines`` names a fresh
+        variable that these constraints define totally (e.g. r with r>=0 and
+        r*r == x, given x>=0): such constraints are only sent to the solver
+        when the defined variable is itself relevant to the query."""
+        for c in cs:
+            if isinstance(c, bool):
+                c = z3.BoolVal(c)
+            self.pc.append(c)
+            self.pc_vars.append(_term_vars(c))
+            self.pc_def.append(defines)
+
+    def _slice(self, extras):
+        need = set()
+        for e in extras:
+            need |= _term_vars(e)
+        chosen = []
+        remaining = list(range(len(self.pc)))
+        changed = True
+        while changed and remaining:
+            changed = False
+            rest = []
+            for i in remaining:
+                v = self.pc_vars[i]
+                dv = self.pc_def[i]
+                if dv is not None and dv not in need:
+                    rest.append(i)
+                    continue
+                if not v or (v & need):
+                    need |= v
+                    chosen.append(i)
+                    changed = changed or bool(v)
+                else:
+                    rest.append(i)
+            remaining = rest
+        chosen.sort()
+        return [self.pc[i] for i in chosen]
+
+    def _solve(self, constraints, timeout_ms=None, count_unknown=True):
+        s = self.solver
+        s.push()
+        try:
+            if timeout_ms is not None:
+                s.set("timeout", timeout_ms)
+            s.add(*constraints)
+            t = time.perf_counter()
+            r = s.check()
+            self.stats.solver_s += time.perf_counter() - t
+            self.stats.queries += 1
+            if r == z3.unknown:
+                if count_unknown:
+                    self.stats.unknown += 1
+                else:
+                    self.stats.side_unknown += 1
+            m = s.model() if r == z3.sat else None
+        finally:
+            s.pop()
+            if timeout_ms is not None:
+                s.set("timeout", self.ex.query_timeout_ms)
+        return r, m
+
+    def _check_quick(self, *extras):
+        """Side-condition probe with a short budget; unknown is returned as such
+        and does not count as an inconclusive query."""
+        cons = self._slice(list(extras)) + list(extras)
+        r, m = self._solve(cons, timeout_ms=self.ex.side_timeout_ms, count_unknown=False)
         return r
+
+    def _check(self, *extras):
+        """Satisfiability of pc and extras.  Only the constraints that share
+        variables (transitively) with ``extras`` are sent to the solver; the
+        rest of the path condition is satisfiable by construction and
+        independent.  With no extras the whole path condition is checked."""
+        extras = [e for e in extras]
+        if extras:
+            cons = self._slice(extras) + extras
+        else:
+            cons = list(self.pc)
+        r, m = self._solve(cons)
+        self._last_model = m
+        return r
+
+    def full_model(self, *extras):
+        """A model of the whole path condition plus extras, solved per
+        connected component; returns {symbol name: python value} or None."""
+        cons = list(self.pc) + list(extras)
+        vs = [_term_vars(c) for c in cons]
+        # connected components over shared variables
+        comp = list(range(len(cons)))
+        owner = {}
+        def find(i):
+            while comp[i] != i:
+                comp[i] = comp[comp[i]]
+                i = comp[i]
+            return i
+        for i, v in enumerate(vs):
+            for name in v:
+                if name in owner:
+                    a, b = find(i), find(owner[name])
+                    if a != b:
+                        comp[a] = b
+                else:
+                    owner[name] = i
+        groups = {}
+        for i in range(len(cons)):
+            groups.setdefault(find(i), []).append(i)
+        values = {}
+        for g in groups.values():
+            r, m = self._solve([cons[i] for i in g], count_unknown=False)
+            if r != z3.sat:
+                return None
+            gv = set()
+            for i in g:
+                gv |= vs[i]
+            for n, z in self.symbols.items():
+                if n in gv:
+                    values[n] = model_value(m, z)
+        for n, z in self.symbols.items():
+            if n not in values:
+                values[n] = _default_value(z)
+        return values
 
     def branch(self, z):
         z = z3.simplify(z)
@@ -683,7 +880,7 @@ class Ctx:
                 raise Inconclusive("decision prefix out of sync (non-deterministic harness?)")
             self.pos += 1
             self.decisions.append(d)
-            self.solver.add(z if d else z3.Not(z))
+            self._add(z if d else z3.Not(z))
             return d
         rt = self._check(z)
         rf = self._check(z3.Not(z))
@@ -701,7 +898,7 @@ class Ctx:
             raise PathAbort()
         self.pos += 1
         self.decisions.append(d)
-        self.solver.add(z if d else z3.Not(z))
+        self._add(z if d else z3.Not(z))
         return d
 
     def concretize_int(self, z, limit=64):
@@ -722,17 +919,17 @@ class Ctx:
                 self.pos += 1
                 self.decisions.append(d)
                 if d[0] == "n":
-                    self.solver.add(z != d[1])
+                    self._add(z != d[1])
                     excluded += 1
                     continue
-                self.solver.add(z == d[1])
+                self._add(z == d[1])
                 return d[1]
-            r = self._check()
+            r = self._check(z == z)
             if r == z3.unknown:
                 raise Inconclusive("unknown while concretising an integer")
             if r == z3.unsat:
                 raise PathAbort()
-            v = self.solver.model().eval(z, model_completion=True).as_long()
+            v = self._last_model.eval(z, model_completion=True).as_long()
             r2 = self._check(z != v)
             if r2 == z3.unknown:
                 raise Inconclusive("unknown while concretising an integer")
@@ -744,7 +941,7 @@ class Ctx:
             d = ("v", v)
             self.pos += 1
             self.decisions.append(d)
-            self.solver.add(z == v)
+            self._add(z == v)
             return v
 
     def assume(self, c):
@@ -752,12 +949,13 @@ class Ctx:
             if not c:
                 raise PathAbort()
             return
-        self.solver.add(_zbool(c))
-        r = self._check()
+        cz = _zbool(c)
+        r = self._check(cz)
         if r == z3.unsat:
             raise PathAbort()
         if r == z3.unknown:
             raise Inconclusive("unknown after assume")
+        self._add(cz)
 
     def assume_unchecked(self, c):
         """Add a constraint without a feasibility query (definitional facts)."""
@@ -765,7 +963,7 @@ class Ctx:
             if not c:
                 raise PathAbort()
             return
-        self.solver.add(_zbool(c))
+        self._add(_zbool(c))
 
     def prove(self, c, label, detail=None):
         """Obligation: c holds on every model of the current path condition."""
@@ -783,12 +981,9 @@ class Ctx:
         if r == z3.unknown:
             raise Inconclusive(f"unknown on obligation {label}")
         # sat: counterexample
-        self.solver.push()
-        self.solver.add(neg)
-        self._check()
-        m = self.solver.model()
-        model = {n: model_value(m, z) for n, z in self.symbols.items()}
-        self.solver.pop()
+        model = self.full_model(neg)
+        if model is None:
+            raise Inconclusive(f"could not build a full model for the counterexample of {label}")
         v = Violation(label, model, _dec_json(self.decisions), detail)
         self.ex.violations.append(v)
         raise StopExploration()
@@ -816,32 +1011,33 @@ class Ctx:
     def check_nonzero(self, den):
         den = z3.simplify(den)
         if z3.is_int_value(den) or z3.is_rational_value(den):
-            if den.as_fraction() == 0 if z3.is_rational_value(den) else den.as_long() == 0:
+            zero = den.as_fraction() == 0 if z3.is_rational_value(den) else den.as_long() == 0
+            if zero:
                 raise ZeroDivisionError("division by zero (concrete)")
             return
         pol = self.ex.div_policy
-        if pol == "assume_silent":
-            self.solver.add(den != 0)
+        if pol == "raise":
+            if self.branch(den == 0):
+                raise ZeroDivisionError("division by zero (symbolic)")
             return
-        r = self._check(den == 0)
-        if r == z3.unknown:
-            raise Inconclusive("unknown on division side condition")
-        if r == z3.sat:
-            if pol == "raise":
-                # fork: zero side raises like Python would
-                if self.branch(den == 0):
-                    raise ZeroDivisionError("division by zero (symbolic)")
-            else:
-                self.stats.div_assumptions += 1
-                self.solver.add(den != 0)
-                r2 = self._check()
-                if r2 == z3.unsat:
-                    raise PathAbort()
+        # policy "assume": the divisor is assumed non-zero (recorded); paths on
+        # which it must be zero are dropped
+        r = self._check_quick(den == 0)
+        if r == z3.unsat:
+            return
+        r2 = self._check_quick(den != 0)
+        if r2 == z3.unsat:
+            raise PathAbort()
+        self.stats.div_assumptions += 1
+        self._add(den != 0)
 
     def require_positive(self, z, what):
-        r = self._check(z <= 0)
-        if r == z3.sat:
-            self.solver.add(z > 0)
+        r = self._check_quick(z <= 0)
+        if r != z3.unsat:
+            r2 = self._check_quick(z > 0)
+            if r2 == z3.unsat:
+                raise PathAbort()
+            self._add(z > 0)
             self.stats.div_assumptions += 1
 
     def sqrt(self, x):
@@ -863,16 +1059,31 @@ class Ctx:
             self.ex._sqrt_cache[key] = r
         # x >= 0 is numpy's domain for a real result; NaN otherwise
         if self.ex.sqrt_policy == "assume":
-            neg = self._check(xz < 0)
-            if neg == z3.sat:
-                self.stats.sqrt_assumptions += 1
-                self.solver.add(xz >= 0)
-                if self._check() == z3.unsat:
+            neg = self._check_quick(xz < 0)
+            if neg != z3.unsat:
+                r2 = self._check_quick(xz >= 0)
+                if r2 == z3.unsat:
                     raise PathAbort()
-            elif neg == z3.unknown:
-                raise Inconclusive("unknown on sqrt domain")
-        self.solver.add(r >= 0, r * r == xz)
+                self.stats.sqrt_assumptions += 1
+                self._add(xz >= 0)
+        self._add(r >= 0, r * r == xz, defines=r.decl().name())
         return Sym(r)
+
+    def quotient(self, num, den):
+        """num / den.  For a non-constant divisor the quotient is a fresh
+        variable q defined by q * den == num (den != 0 is already on the path
+        condition), which keeps the constraints polynomial for nlsat."""
+        den_s = z3.simplify(den)
+        if z3.is_rational_value(den_s) or z3.is_int_value(den_s) or not self.ex.poly_division:
+            return Sym(num / den)
+        key = ("quot", num.get_id(), den.get_id())
+        hit = self.ex._sqrt_cache.get(key)
+        if hit is not None and hit[1].eq(num) and hit[2].eq(den):
+            return Sym(hit[0])
+        q = z3.Real(self._name("quot"))
+        self.ex._sqrt_cache[key] = (q, num, den)
+        self._add(q * den == num, defines=q.decl().name())
+        return Sym(q)
 
     def uf(self, name, *sorts):
         f = self.ufs.get(name)
@@ -887,13 +1098,13 @@ class Ctx:
         app = f(xz)
         apps = self.uf_apps.setdefault(name, [])
         # monotonicity axioms instantiated pairwise on the occurring arguments
-        if name in ("log", "exp", "sqrtuf", "Phi"):
+        if name in ("log", "exp", "sqrtuf", "PhiF"):
             for (oz, oapp) in apps:
-                self.solver.add(z3.Implies(oz < xz, oapp < app))
-                self.solver.add(z3.Implies(oz > xz, oapp > app))
-                self.solver.add(z3.Implies(oz == xz, oapp == app))
+                self._add(z3.Implies(oz < xz, oapp < app))
+                self._add(z3.Implies(oz > xz, oapp > app))
+                self._add(z3.Implies(oz == xz, oapp == app))
         if name == "log":
-            self.solver.add(z3.Implies(xz > 1, app > 0), z3.Implies(xz == 1, app == 0),
+            self._add(z3.Implies(xz > 1, app > 0), z3.Implies(xz == 1, app == 0),
                             z3.Implies(xz < 1, app < 0))
         apps.append((xz, app))
         return Sym(app)
@@ -911,9 +1122,11 @@ class Explorer:
 
     def __init__(self, query_timeout_ms=20000, max_paths=200000, wall_budget_s=None,
                  div_policy="assume", sqrt_policy="assume", stop_on_violation=True,
-                 sample_every=0):
+                 relax_ints=False, side_timeout_ms=2000, poly_division=True):
         self.solver = z3.Solver()
         self.solver.set("timeout", query_timeout_ms)
+        self.query_timeout_ms = query_timeout_ms
+        self.side_timeout_ms = side_timeout_ms
         self.stats = Stats()
         self.violations = []
         self.max_paths = max_paths
@@ -921,6 +1134,8 @@ class Explorer:
         self.div_policy = div_policy
         self.sqrt_policy = sqrt_policy
         self.stop_on_violation = stop_on_violation
+        self.relax_ints = relax_ints
+        self.poly_division = poly_division
         self._work = []
         self._prefix = []
         self._sqrt_cache = {}
@@ -944,7 +1159,6 @@ class Explorer:
             # translate ("n", v) tail into the replay format
             self._prefix = prefix
             self._sqrt_cache = {}
-            self.solver.push()
             ctx = Ctx(self)
             set_cur(ctx)
             try:
@@ -955,18 +1169,13 @@ class Explorer:
             except StopExploration:
                 self.stats.paths += 1
                 if self.stop_on_violation:
-                    self.solver.pop()
                     set_cur(None)
                     break
             except Inconclusive as e:
                 self.stats.paths += 1
                 self.inconclusive.append(str(e))
-                self.solver.pop()
                 set_cur(None)
                 break
-            finally:
-                pass
-            self.solver.pop()
             set_cur(None)
         self.stats.wall_s = round(time.perf_counter() - t0, 3)
         return self
